@@ -232,10 +232,14 @@ func Align(mut []minijs.Token, ot []OTok, known func(string) bool) Alignment {
 				params := false
 				if j > 0 {
 					p := ot[j-1]
+					// the keyword, not the IdentifierName behind a dot: "x.function(a,)" is a call
+					keyword := func(k int) bool {
+						return k >= 0 && ot[k].Text == "function" && !ot[k].IsKey && !ot[k].IsStr && !(k > 0 && ot[k-1].Text == "." && !ot[k-1].IsKey && !ot[k-1].IsStr)
+					}
 					switch {
-					case p.Text == "function" && !p.IsKey && !p.IsStr:
+					case keyword(j - 1):
 						params = true
-					case j > 1 && ot[j-2].Text == "function" && !ot[j-2].IsKey && !ot[j-2].IsStr:
+					case keyword(j-2) && !(p.Text == "." && !p.IsKey && !p.IsStr):
 						params = true
 					case p.IsKey && j > 1 && (ot[j-2].Text == "get" || ot[j-2].Text == "set") && !ot[j-2].IsKey:
 						params = true
